@@ -169,11 +169,25 @@ fn walk(bytes: &[u8]) -> String {
     let misc = catch_unwind(AssertUnwindSafe(|| dump.get_stream::<MinidumpMiscInfo>())).unwrap_or(Err(Error::IoError));
     f.push(format!("MS={}", guard(|| match &misc {
         Ok(m) => {
-            m.print(&mut out).unwrap();
+            let ver = match m.raw {
+                RawMiscInfo::MiscInfo(_) => 1,
+                RawMiscInfo::MiscInfo2(_) => 2,
+                RawMiscInfo::MiscInfo3(_) => 3,
+                RawMiscInfo::MiscInfo4(_) => 4,
+                RawMiscInfo::MiscInfo5(_) => 5,
+            };
+            let nfeat = m.raw.xstate_data().map(|x| x.iter().count() as i64).unwrap_or(-1);
             let _ = m.process_create_time();
-            "ok".to_string()
+            format!("ok:{}:{}", ver, nfeat)
         }
         Err(e) => err_name(e),
+    })));
+    f.push(format!("MSP={}", guard(|| match &misc {
+        Ok(m) => {
+            m.print(&mut out).unwrap();
+            "ok".to_string()
+        }
+        Err(_) => "-".to_string(),
     })));
     let misc = misc.ok();
     let mem = catch_unwind(AssertUnwindSafe(|| dump.get_memory())).unwrap_or(None);
@@ -196,9 +210,10 @@ fn walk(bytes: &[u8]) -> String {
                 for c in CPUS {
                     let _ = t.last_error(c, memref);
                 }
-                if t.stack_memory(memref).is_some() {
+                if t.stack_memory(&empty_mem).is_some() {
                     nstack += 1;
                 }
+                let _ = t.stack_memory(memref);
                 let _ = tl.get_thread(t.raw.thread_id);
             }
             format!("ok:{}:{}:{}", tl.threads.len(), nctx, nstack)
@@ -271,13 +286,18 @@ fn walk(bytes: &[u8]) -> String {
     })));
 
     // ---- memory
+    let mut ma = String::new();
     f.push(format!("MEM={}", guard(|| match dump.get_stream::<MinidumpMemoryList>() {
         Ok(l) => {
             let n = l.iter().count();
-            for r in l.iter().take(4096) {
+            for (i, r) in l.iter().take(4096).enumerate() {
                 for a in probe_addrs(r.base_address, r.size) {
-                    let _: Option<u64> = r.get_memory_at_address(a);
-                    let _: Option<u8> = r.get_memory_at_address(a);
+                    let x: Option<u64> = r.get_memory_at_address(a);
+                    let y: Option<u8> = r.get_memory_at_address(a);
+                    if i < 8 {
+                        ma.push(if x.is_some() { '1' } else { '0' });
+                        ma.push(if y.is_some() { '1' } else { '0' });
+                    }
                     let _ = l.memory_at_address(a);
                 }
                 let _ = r.memory_range();
@@ -287,6 +307,12 @@ fn walk(bytes: &[u8]) -> String {
         }
         Err(e) => err_name(&e),
     })));
+    if f.last().map(|x| x.starts_with("MEM=ok")).unwrap_or(false) {
+        f.push(format!("MA=ok:{}", ma));
+    } else {
+        let last = f.last().unwrap()[4..].to_string();
+        f.push(format!("MA={}", last));
+    }
     f.push(format!("M64={}", guard(|| match dump.get_stream::<MinidumpMemory64List>() {
         Ok(l) => {
             let n = l.iter().count();
@@ -471,11 +497,26 @@ fn walk(bytes: &[u8]) -> String {
         v.print(&mut out).unwrap();
         "ok".to_string()
     });
-    simple!("LC", MinidumpLinuxCpuInfo, |v| { format!("ok:{}:{}", v.iter().count(), v.raw_bytes().len()) });
-    simple!("LS", MinidumpLinuxProcStatus, |v| { format!("ok:{}:{}", v.iter().count(), v.raw_bytes().len()) });
-    simple!("LR", MinidumpLinuxLsbRelease, |v| { format!("ok:{}:{}", v.iter().count(), v.raw_bytes().len()) });
-    simple!("LE", MinidumpLinuxEnviron, |v| { format!("ok:{}:{}", v.iter().count(), v.raw_bytes().len()) });
-    simple!("LL", MinidumpLinuxProcLimits, |v| { format!("ok:{}:{}", v.iter().count(), v.raw_bytes().len()) });
+    simple!("LC", MinidumpLinuxCpuInfo, |v| {
+        let _ = v.raw_bytes().len();
+        format!("ok:{}:{}", v.iter().count(), v.iter().map(|(k, x)| k.as_bytes().len() + x.as_bytes().len()).sum::<usize>())
+    });
+    simple!("LS", MinidumpLinuxProcStatus, |v| {
+        let _ = v.raw_bytes().len();
+        format!("ok:{}:{}", v.iter().count(), v.iter().map(|(k, x)| k.as_bytes().len() + x.as_bytes().len()).sum::<usize>())
+    });
+    simple!("LR", MinidumpLinuxLsbRelease, |v| {
+        let _ = v.raw_bytes().len();
+        format!("ok:{}:{}", v.iter().count(), v.iter().map(|(k, x)| k.as_bytes().len() + x.as_bytes().len()).sum::<usize>())
+    });
+    simple!("LE", MinidumpLinuxEnviron, |v| {
+        let _ = v.raw_bytes().len();
+        format!("ok:{}:{}", v.iter().count(), v.iter().map(|(k, x)| k.as_bytes().len() + x.as_bytes().len()).sum::<usize>())
+    });
+    simple!("LL", MinidumpLinuxProcLimits, |v| {
+        let _ = v.raw_bytes().len();
+        format!("ok:{}", v.iter().count())
+    });
     simple!("SE", MinidumpSoftErrors, |v| { format!("ok:{}", v.as_ref().len()) });
     f.join(";")
 }
